@@ -908,7 +908,7 @@ func c01GenSeq(rt *rapid.T) c01Case {
 			o = c01GenAdv(rt, nt)
 		case "probe":
 			o = c01Op{K: "probe", T: rapid.IntRange(0, nt-1).Draw(rt, "t"), G: rapid.IntRange(0, c.NG-1).Draw(rt, "g"), Rt: rapid.IntRange(1, 2).Draw(rt, "rt"),
-				M: rapid.SampledFrom([]int{200, 2000, 2000, 5000}).Draw(rt, "m")}
+				M: rapid.SampledFrom([]int{200, 2000, 2000, 5000, 20000}).Draw(rt, "m")}
 		case "nobrk":
 			o = c01Op{K: "nobrk", T: rapid.IntRange(c.ND, nt-1).Draw(rt, "t")}
 		}
@@ -918,8 +918,482 @@ func c01GenSeq(rt *rapid.T) c01Case {
 }
 
 func TestVerif_C01_model(t *testing.T) {
-	kit.Run(t, "C01", "breaker-model", kit.Opts{Quick: 600, Thorough: 32000}, c01GenSeq,
+	kit.Run(t, "C01", "breaker-model", kit.Opts{Quick: 1000, Thorough: 32000}, c01GenSeq,
 		func(c c01Case) kit.Verdict { return c01InterpSeq(t, c) })
 }
 
-var _ = sync.Mutex{}
+// ---------------------------------------------------------------- overlapping calls (parallel rule)
+
+// All instants of a parallel case are multiples of 1 µs; a monitor goroutine
+// reads the windows at instants i*Period+500ns, when every caller is asleep, so
+// the comparison with the model is exact even though calls overlap.
+
+type c01PCall struct {
+	T     int   `json:"t,omitempty"`
+	Allow bool  `json:"al,omitempty"` // Allow ... Accept/Reject instead of Do*
+	Via   int   `json:"via,omitempty"`
+	Out   int   `json:"out,omitempty"`
+	PV    int   `json:"pv,omitempty"`
+	Acc   int   `json:"acc,omitempty"`
+	Fb    int   `json:"fb,omitempty"`
+	Delay int64 `json:"dl,omitempty"` // µs before the call
+	Dur   int64 `json:"du,omitempty"` // µs spent inside the protected function
+}
+
+type c01Pre struct {
+	T    int  `json:"t,omitempty"`
+	N    int  `json:"n"`
+	Fail bool `json:"f,omitempty"`
+}
+
+type c01PCase struct {
+	Names  []string     `json:"names"` // "" => direct breaker (New), else registry name created lazily by the callers
+	Pre    []c01Pre     `json:"pre,omitempty"`
+	Gs     [][]c01PCall `json:"gs"`
+	Period int64        `json:"per"` // µs between monitor samples
+}
+
+type c01PObs struct {
+	call            c01PCall
+	startAt, markAt time.Duration
+	reqRuns, fbRuns int
+	fbArg, ret      error
+	allowErr        error
+	panicked        bool
+	pval            any
+	handle          Breaker
+}
+
+type c01Sample struct {
+	at         time.Duration
+	acc, total []int64
+}
+
+func c01InterpPar(t *testing.T, c c01PCase) (v kit.Verdict) {
+	classes := map[string]bool{}
+	var fail string
+	res := kit.Bubble(t, func() {
+		c01ResetRegistry()
+		start := time.Now()
+		now := func() time.Duration { return time.Since(start) }
+		nb := len(c.Names)
+		if nb == 0 {
+			return
+		}
+		direct := make([]Breaker, nb)
+		regName := make([]string, nb)
+		for i, n := range c.Names {
+			if n == "" {
+				direct[i] = New()
+			} else {
+				regName[i] = fmt.Sprintf("%s#%d", n, i)
+			}
+		}
+		get := func(i int) Breaker {
+			if direct[i] != nil {
+				return direct[i]
+			}
+			return Get(regName[i])
+		}
+		models := make([]*c01Model, nb)
+		for i := range models {
+			models[i] = c01NewModel(0)
+		}
+		// prelude: sequential outcomes that put the breakers into a state
+		for _, p := range c.Pre {
+			i := p.T % nb
+			b := get(i)
+			for j := 0; j < p.N; j++ {
+				ran := false
+				err := b.Do(func() error {
+					ran = true
+					if p.Fail {
+						return c01ErrA
+					}
+					return nil
+				})
+				acc0, tot0 := models[i].visible(0)
+				if !ran {
+					if !c01Eligible(acc0, tot0) || err != ErrServiceUnavailable {
+						fail = fmt.Sprintf("prelude %+v #%d: rejected (err=%v) with window (successes=%d,total=%d)", p, j, err, acc0, tot0)
+						return
+					}
+					continue
+				}
+				models[i].record(0, !p.Fail)
+			}
+		}
+		obs := make([][]*c01PObs, len(c.Gs))
+		var wg sync.WaitGroup
+		for gi, calls := range c.Gs {
+			gi, calls := gi, calls
+			obs[gi] = make([]*c01PObs, 0, len(calls))
+			wg.Add(1)
+			go func() {
+				defer wg.Done()
+				for _, pc := range calls {
+					pc := pc
+					o := &c01PObs{call: pc}
+					obs[gi] = append(obs[gi], o)
+					i := pc.T % nb
+					if pc.Delay > 0 {
+						time.Sleep(time.Duration(pc.Delay) * time.Microsecond)
+					}
+					o.startAt = now()
+					b := get(i)
+					o.handle = b
+					if pc.Allow {
+						p, err := b.Allow()
+						o.allowErr = err
+						if err != nil {
+							continue
+						}
+						o.reqRuns = 1
+						if pc.Dur > 0 {
+							time.Sleep(time.Duration(pc.Dur) * time.Microsecond)
+						}
+						o.markAt = now()
+						if pc.Out == 0 {
+							p.Accept()
+						} else {
+							p.Reject("c01 parallel")
+						}
+						continue
+					}
+					req := func() error {
+						o.reqRuns++
+						if pc.Dur > 0 {
+							time.Sleep(time.Duration(pc.Dur) * time.Microsecond)
+						}
+						o.markAt = now()
+						if pc.Out == 4 {
+							panic(c01PanicVal(pc.PV))
+						}
+						return c01Err(pc.Out)
+					}
+					fallback := func(err error) error {
+						o.fbRuns++
+						o.fbArg = err
+						switch pc.Fb {
+						case 1:
+							return c01ErrB
+						case 2:
+							return err
+						}
+						return nil
+					}
+					acceptable := func(err error) bool {
+						id := c01ErrID(err)
+						return id >= 0 && pc.Acc&(1<<uint(id)) != 0
+					}
+					func() {
+						defer func() {
+							if r := recover(); r != nil {
+								o.panicked, o.pval = true, r
+							}
+						}()
+						switch pc.Via {
+						case 0:
+							o.ret = b.Do(req)
+						case 1:
+							o.ret = b.DoWithAcceptable(req, acceptable)
+						case 2:
+							o.ret = b.DoWithFallback(req, fallback)
+						default:
+							o.ret = b.DoWithFallbackAcceptable(req, fallback, acceptable)
+						}
+					}()
+				}
+			}()
+		}
+		// monitor
+		stop := make(chan struct{})
+		monDone := make(chan struct{})
+		var samples []c01Sample
+		period := time.Duration(c.Period) * time.Microsecond
+		if period < time.Microsecond {
+			period = time.Microsecond
+		}
+		go func() {
+			defer close(monDone)
+			time.Sleep(500 * time.Nanosecond)
+			tk := time.NewTicker(period)
+			defer tk.Stop()
+			for {
+				s := c01Sample{at: now(), acc: make([]int64, nb), total: make([]int64, nb)}
+				for i := 0; i < nb; i++ {
+					if direct[i] == nil {
+						lock.RLock()
+						_, exists := breakers[regName[i]]
+						lock.RUnlock()
+						if !exists {
+							s.acc[i], s.total[i] = -1, -1
+							continue
+						}
+					}
+					s.acc[i], s.total[i], _ = c01Hist(get(i))
+				}
+				samples = append(samples, s)
+				select {
+				case <-stop:
+					return
+				case <-tk.C:
+				}
+			}
+		}()
+		wg.Wait()
+		time.Sleep(time.Microsecond) // one more sample after the last outcome
+		kit.Wait()
+		close(stop)
+		<-monDone
+
+		// ---- judge
+		type ev struct {
+			at time.Duration
+			ok bool
+		}
+		events := make([][]ev, nb)
+		type iv struct {
+			s, e time.Duration
+			g    int
+		}
+		ivs := make([][]iv, nb)
+		handles := make([]Breaker, nb)
+		// grid anchor = creation instant: direct breakers and names touched by the
+		// prelude exist from t=0, other names are created by their first caller
+		anchored := make([]bool, nb)
+		for i := range anchored {
+			anchored[i] = direct[i] != nil
+		}
+		for _, p := range c.Pre {
+			if p.N > 0 {
+				anchored[p.T%nb] = true
+			}
+		}
+		seen := make([]bool, nb)
+		for gi := range obs {
+			for _, o := range obs[gi] {
+				i := o.call.T % nb
+				if !anchored[i] && (!seen[i] || o.startAt < models[i].created) {
+					models[i].created = o.startAt
+					seen[i] = true
+				}
+			}
+		}
+		for i := range anchored {
+			if !anchored[i] && models[i].created > 0 {
+				classes["created-lazily-by-callers"] = true
+			}
+		}
+		for gi := range obs {
+			for ci, o := range obs[gi] {
+				pc := o.call
+				i := pc.T % nb
+				what := fmt.Sprintf("goroutine %d call %d %+v (start %v)", gi, ci, pc, o.startAt)
+				if handles[i] == nil {
+					handles[i] = o.handle
+				} else if handles[i] != o.handle {
+					fail = fmt.Sprintf("%s: callers of breaker %q obtained different breakers", what, regName[i])
+					return
+				}
+				if pc.Allow {
+					if o.allowErr != nil {
+						if o.allowErr != ErrServiceUnavailable {
+							fail = fmt.Sprintf("%s: Allow returned %v", what, o.allowErr)
+							return
+						}
+						continue
+					}
+					events[i] = append(events[i], ev{o.markAt, pc.Out == 0})
+					ivs[i] = append(ivs[i], iv{o.startAt, o.markAt, gi})
+					continue
+				}
+				hasFb := pc.Via >= 2
+				switch {
+				case o.reqRuns > 1:
+					fail = fmt.Sprintf("%s: protected function ran %d times", what, o.reqRuns)
+					return
+				case o.reqRuns == 0:
+					if o.panicked {
+						fail = fmt.Sprintf("%s: rejected call panicked: %v", what, o.pval)
+						return
+					}
+					if hasFb {
+						want := []error{nil, c01ErrB, ErrServiceUnavailable}[pc.Fb%3]
+						if o.fbRuns != 1 || o.fbArg != ErrServiceUnavailable || o.ret != want {
+							fail = fmt.Sprintf("%s: rejected: fallback ran %d times with %v, call returned %v", what, o.fbRuns, o.fbArg, o.ret)
+							return
+						}
+					} else if o.fbRuns != 0 || o.ret != ErrServiceUnavailable {
+						fail = fmt.Sprintf("%s: rejected call returned %v", what, o.ret)
+						return
+					}
+				default:
+					if o.fbRuns != 0 {
+						fail = fmt.Sprintf("%s: admitted call also ran the fallback", what)
+						return
+					}
+					ok := false
+					if pc.Out == 4 {
+						if !o.panicked || o.pval != c01PanicVal(pc.PV) {
+							fail = fmt.Sprintf("%s: panic not re-raised unchanged (panicked=%v value=%v)", what, o.panicked, o.pval)
+							return
+						}
+					} else {
+						if o.panicked || o.ret != c01Err(pc.Out) {
+							fail = fmt.Sprintf("%s: admitted call returned %v (panicked=%v)", what, o.ret, o.panicked)
+							return
+						}
+						if pc.Via == 1 || pc.Via == 3 {
+							ok = pc.Acc&(1<<uint(pc.Out)) != 0
+						} else {
+							ok = pc.Out == 0
+						}
+					}
+					events[i] = append(events[i], ev{o.markAt, ok})
+					ivs[i] = append(ivs[i], iv{o.startAt, o.markAt, gi})
+				}
+			}
+		}
+		// window at an instant: prelude model + events strictly before (or up to) it
+		windowAt := func(i int, at time.Duration, inclusive bool, onlyFailuresAtInstant bool) (acc, total int64) {
+			acc, total = models[i].visible(at)
+			g := models[i].grid(at)
+			for _, e := range events[i] {
+				if e.at > at || (e.at == at && !inclusive) {
+					continue
+				}
+				if e.at == at && onlyFailuresAtInstant && e.ok {
+					continue
+				}
+				if eg := models[i].grid(e.at); g-eg >= c01Buckets {
+					continue
+				}
+				total++
+				if e.ok {
+					acc++
+				}
+			}
+			return
+		}
+		// rejections must be justified by a state reachable at that instant
+		for gi := range obs {
+			for ci, o := range obs[gi] {
+				rejected := (o.call.Allow && o.allowErr != nil) || (!o.call.Allow && o.reqRuns == 0)
+				if !rejected {
+					continue
+				}
+				classes["rejected"] = true
+				i := o.call.T % nb
+				acc, total := windowAt(i, o.startAt, true, true)
+				if !c01Eligible(acc, total) {
+					fail = fmt.Sprintf("goroutine %d call %d %+v rejected at %v although even the most failure-heavy window possible then (successes=%d,total=%d) does not satisfy total-5 > 1.5*successes",
+						gi, ci, o.call, o.startAt, acc, total)
+					return
+				}
+			}
+		}
+		for _, s := range samples {
+			for i := 0; i < nb; i++ {
+				macc, mtot := windowAt(i, s.at, false, false)
+				if s.acc[i] == -1 {
+					if mtot != 0 {
+						fail = fmt.Sprintf("monitor at %v: breaker %q not registered but outcomes were recorded", s.at, regName[i])
+						return
+					}
+					continue
+				}
+				if s.acc[i] != macc || s.total[i] != mtot {
+					fail = fmt.Sprintf("monitor at %v: breaker %d (%q) window (successes=%d,total=%d) != outcomes of admitted calls so far (successes=%d,total=%d)",
+						s.at, i, c.Names[i], s.acc[i], s.total[i], macc, mtot)
+					return
+				}
+			}
+		}
+		if len(samples) > 3 {
+			classes["monitor>3-samples"] = true
+		}
+		for i := 0; i < nb; i++ {
+			hasOK, hasFail := false, false
+			for _, e := range events[i] {
+				if e.ok {
+					hasOK = true
+				} else {
+					hasFail = true
+				}
+			}
+			for a := 0; a < len(ivs[i]); a++ {
+				for b := a + 1; b < len(ivs[i]); b++ {
+					x, y := ivs[i][a], ivs[i][b]
+					if x.g != y.g && x.s <= y.e && y.s <= x.e {
+						classes["overlapping-calls"] = true
+						if x.e == y.e {
+							classes["same-instant-outcomes"] = true
+						}
+						if hasOK && hasFail {
+							v.NonTrivial = true
+						}
+					}
+				}
+			}
+		}
+	})
+	for k := range classes {
+		v.Classes = append(v.Classes, k)
+	}
+	sort.Strings(v.Classes)
+	if fail != "" {
+		v.Fail = fail
+	} else if !res.OK() {
+		v.Fail = "bubble: " + res.String()
+	}
+	return v
+}
+
+func c01GenPar(rt *rapid.T) c01PCase {
+	var c c01PCase
+	nb := rapid.IntRange(1, 2).Draw(rt, "nb")
+	for i := 0; i < nb; i++ {
+		c.Names = append(c.Names, rapid.SampledFrom([]string{"", "a", "b"}).Draw(rt, "name"))
+	}
+	npre := rapid.IntRange(0, 2).Draw(rt, "npre")
+	for i := 0; i < npre; i++ {
+		c.Pre = append(c.Pre, c01Pre{T: rapid.IntRange(0, nb-1).Draw(rt, "t"),
+			N:    rapid.SampledFrom([]int{1, 5, 6, 8, 12, 40}).Draw(rt, "n"),
+			Fail: rapid.SampledFrom([]bool{true, true, false}).Draw(rt, "f")})
+	}
+	ng := rapid.IntRange(2, 8).Draw(rt, "ng")
+	durs := []int64{0, 0, 1, 1000, 250000, 250000, 1000000, 3000000, 10000000}
+	for g := 0; g < ng; g++ {
+		n := rapid.IntRange(1, 12).Draw(rt, "ncalls")
+		var calls []c01PCall
+		for j := 0; j < n; j++ {
+			pc := c01PCall{T: rapid.IntRange(0, nb-1).Draw(rt, "t")}
+			pc.Allow = rapid.IntRange(0, 4).Draw(rt, "allow") == 0
+			pc.Out = rapid.SampledFrom([]int{0, 0, 0, 1, 1, 1, 2, 3, 4}).Draw(rt, "out")
+			if !pc.Allow {
+				pc.Via = rapid.IntRange(0, 3).Draw(rt, "via")
+				if pc.Out == 4 {
+					pc.PV = rapid.IntRange(0, 3).Draw(rt, "pv")
+				}
+				if pc.Via == 1 || pc.Via == 3 {
+					pc.Acc = rapid.SampledFrom([]int{1, 1, 3, 9, 15, 0, 14}).Draw(rt, "acc")
+				}
+				if pc.Via >= 2 {
+					pc.Fb = rapid.IntRange(0, 2).Draw(rt, "fb")
+				}
+			}
+			pc.Delay = rapid.SampledFrom(durs).Draw(rt, "delay")
+			pc.Dur = rapid.SampledFrom(durs).Draw(rt, "dur")
+			calls = append(calls, pc)
+		}
+		c.Gs = append(c.Gs, calls)
+	}
+	c.Period = rapid.SampledFrom([]int64{125000, 250000, 333000, 1000000}).Draw(rt, "period")
+	return c
+}
+
+func TestVerif_C01_parallel(t *testing.T) {
+	kit.Run(t, "C01", "breaker-parallel", kit.Opts{Quick: 3000, Thorough: 64000}, c01GenPar,
+		func(c c01PCase) kit.Verdict { return c01InterpPar(t, c) })
+}
